@@ -306,6 +306,69 @@ def judge_offgrid(c):
     return out
 
 
+def judge_realtime(c):
+    """the documented 'real time' cold buffer (max_data_rate -1): a tier
+    move must come out the same in seconds and in the unit (the flag is
+    scaled like every rate; the decision it stands for must not change)"""
+    from .. import seams
+    from ..seams import ProbeEnvironment, Probe
+    from topsim.core.cluster import Cluster
+    from topsim.core.buffer import Buffer
+    from topsim.core.instrument import Observation
+    u, size = c["unit"], c["size"]
+    res = {}
+    import contextlib, io
+    with contextlib.redirect_stdout(io.StringIO()):
+        res = _realtime_outcomes(c, u, size)
+    if res["seconds"] != res[u]:
+        return [("C16.cross-section",
+                 "real-time-cold-buffer-move-depends-on-unit",
+                 {"seconds": res["seconds"], "unit": res[u]})]
+    return []
+
+
+def _realtime_outcomes(c, u, size):
+    from ..seams import ProbeEnvironment, Probe
+    from topsim.core.cluster import Cluster
+    from topsim.core.buffer import Buffer
+    from topsim.core.instrument import Observation
+    res = {}
+    for unit in ("seconds", u):
+        cfg = mkcfg([[1, 1]], [mkobs("a", 0, 1, 1, 1, 1, "wa")],
+                    (size + 20, 5), (size + 20, -1), timestep=unit)
+        try:
+            conf = Config(_path(cfg))
+            probe = Probe()
+            env = ProbeEnvironment(probe)
+            buf = Buffer(env, Cluster(env, conf), None, conf)
+            h, cold = buf.hot[0], buf.cold[0]
+            o = Observation("a", 0, 1, 1, "none", size)
+            o.total_data_size = size
+            h.observations['stored'].append(o)
+            h.current_capacity -= size
+            outcome = []
+            for move in c["moves"]:
+                proc = env.process(buf.move_hot_to_cold(0) if move == "h2c"
+                                   else buf.move_cold_to_hot(0))
+                steps = 0
+                while not proc.triggered and steps < 60:
+                    while env._queue and env._queue[0][0] <= env.now:
+                        env.step()
+                    if proc.triggered:
+                        break
+                    steps += 1
+                    env._now = env.now + 1
+                outcome.append(("done" if proc.triggered and proc.ok
+                                else "raised" if proc.triggered
+                                else "never", steps))
+            res[unit] = (outcome, h.current_capacity, cold.current_capacity,
+                         [x.name for x in h.observations['stored']],
+                         [x.name for x in cold.observations['stored']])
+        except Exception as e:
+            res[unit] = ("raised:%s" % type(e).__name__, repr(e)[:120])
+    return res
+
+
 def sim_pairs(tier):
     """The same physical configuration (whole multiples of the unit
     everywhere) to be SIMULATED with timestep 'seconds' and with unit u."""
@@ -429,6 +492,22 @@ def run(rep, tier, seed):
         rep.evaluations += 4
         for clause, cause, det in vs:
             rep.violation(clause, cause, c, det, sc)
+    rts = [{"engine": "E3-realtime", "unit": u, "size": sz, "moves": mv}
+           for u in (2, 7, "minutes", "hours", 90)
+           for sz in (3, 12, 40)
+           for mv in (["h2c"], ["h2c", "c2h"])]
+
+    def work4(i, c):
+        return judge_realtime(c)
+    res4, _ = engine.parallel_map(work4, rts)
+    for c, vs in zip(rts, res4):
+        sc = "E3-real-time-cold-buffer/unit-%s" % c["unit"]
+        s_ = rep.scope(sc)
+        s_["cases"] += 1
+        s_["executions"] += 2
+        rep.evaluations += 2
+        for clause, cause, det in vs:
+            rep.violation(clause, cause, c, det, sc)
     pairs = common.rotate(list(sim_pairs(tier)), seed)
 
     def work2(i, c):
@@ -454,6 +533,9 @@ def run(rep, tier, seed):
 
 
 def replay(payload):
+    if payload.get("engine") == "E3-realtime":
+        return [{"clause": a, "cause": b, "detail": c}
+                for a, b, c in judge_realtime(payload)]
     if payload.get("engine") == "E3-offgrid":
         return [{"clause": a, "cause": b, "detail": c}
                 for a, b, c in judge_offgrid(payload)]
